@@ -46,7 +46,9 @@ let () =
     | id :: "A" :: form :: args :: floats :: _ ->
       let out = (match apply_shape (pf_of_field floats) (form = "2") (list_of_field args) with
                  | APanic -> "panic"
-                 | AErr -> "nopanic perr"
+                 | AErr e -> "nopanic perr " ^ hex_of_bytes (err_prefix e)
                  | AReach -> "nopanic store") in
       Printf.printf "%s\t%s\n" id out
+    | id :: "U" :: text :: _ ->
+      Printf.printf "%s\t%s\n" id (if is_unrecovery (bytes_of_hex text) then "1" else "0")
     | _ -> ())
